@@ -91,6 +91,9 @@ type run struct {
 	poison map[[2]int]bool
 	rstAt  []time.Time // connections an accept+RST host received (and reset at once)
 	done   chan struct{}
+
+	answered     chan struct{} // closed when an upstream has written a complete answer (client class "at-answer" waits for it)
+	answeredOnce sync.Once
 }
 
 func (r *run) start() time.Time {
@@ -134,6 +137,9 @@ func (r *run) arrive(host, conn int, bodyOK bool) *arrival {
 }
 
 func (r *run) finish(a *arrival, wrote string) {
+	if wrote == "full" && r.answered != nil {
+		r.answeredOnce.Do(func() { close(r.answered) })
+	}
 	now := time.Now()
 	r.mu.Lock()
 	a.Wrote, a.DoneAt, a.DoneUs = wrote, now, now.Sub(r.start()).Microseconds()
@@ -225,6 +231,9 @@ func (r *run) act(a *arrival, c net.Conn, wmu *sync.Mutex, full []byte, cut int)
 	}
 	switch a.Step.Kind {
 	case "reply", "reply5xx":
+		if r.answered != nil {
+			r.answeredOnce.Do(func() { close(r.answered) }) // just before the bytes go out: the client class "at-answer" counts from here
+		}
 		if err := write(full); err != nil {
 			r.finish(a, "")
 			return true
@@ -663,7 +672,7 @@ const (
 func runScenario(sc *Scenario) (res *result) {
 	startStallMonitor()
 	uniq := mesh.Uniq()
-	r := &run{sc: sc, tok: fmt.Sprintf("t%d", uniq), done: make(chan struct{}), poison: map[[2]int]bool{}}
+	r := &run{sc: sc, tok: fmt.Sprintf("t%d", uniq), done: make(chan struct{}), poison: map[[2]int]bool{}, answered: make(chan struct{})}
 	res = &result{Token: r.tok}
 	var (
 		ups     []*upHost
@@ -824,6 +833,16 @@ func runScenario(sc *Scenario) (res *result) {
 	switch {
 	case sc.Client.Disconnect:
 		at := t0.Add(time.Duration(sc.Client.AtUs) * time.Microsecond)
+		if sc.Client.Class == "at-answer" {
+			// event-driven: the client leaves AtUs microseconds after an upstream has written its complete answer, i.e.
+			// while the proxy is handing that answer over (or at the global timeout if no answer is ever written)
+			select {
+			case <-r.answered:
+				at = time.Now().Add(time.Duration(sc.Client.AtUs) * time.Microsecond)
+			case <-time.After(time.Until(t0.Add(r.globalD()))):
+				at = time.Now()
+			}
+		}
 		time.Sleep(time.Until(at))
 		cl.close(sc.Client.Rst)
 		closed = true
